@@ -38,6 +38,7 @@ func main() {
 	seed := flag.Int64("seed", 1, "seed")
 	size := flag.Int("size", 14, "operations per random scenario")
 	dump := flag.String("dump", "", "write the executed scenarios to this file")
+	sysout := flag.String("sysout", "", "api mode, timing platforms: write the CP/DMA port events of every GPU as DMATrace traces")
 	flag.Parse()
 
 	// keep the sqlite files of simulation.Build out of the caller's directory
@@ -65,12 +66,28 @@ func main() {
 		for i := 0; i < *nrand; i++ {
 			scs = append(scs, randAPI(rng, pl[i%len(pl)], *size, fmt.Sprintf("rand-%d-%d", *seed, i)))
 		}
+		var srec *ab.Recorder
+		var sw *bufio.Writer
+		if *sysout != "" {
+			sf, err := os.Create(*sysout)
+			if err != nil {
+				panic(err)
+			}
+			defer sf.Close()
+			sw = bufio.NewWriterSize(sf, 1<<20)
+			srec = ab.NewRecorder(sw)
+		}
 		for _, sc := range scs {
 			w := newWorld(sc, rec, stats)
 			w.exec()
+			stats["sys_traces"] += w.flushSys(srec)
 			w.close()
 			stats["traces"]++
 			stats["by_"+sc.Plat]++
+		}
+		if sw != nil {
+			sw.Flush()
+			stats["sys_events"] = srec.Seq
 		}
 		if *dump != "" {
 			js, _ := json.Marshal(scs)
